@@ -240,7 +240,8 @@ func runFlags(t *simrt.Tape, keep bool) simrt.Outcome {
 			n := 1 + t.Choose(5)
 			want := map[string][]string{}
 			var args []string
-			hosts := []string{"google.com", "10.0.0.1", "localhost", "svc.internal"}
+			// (ip|host):port - an IPv6 address is written in brackets wherever a port follows it
+			hosts := []string{"google.com", "10.0.0.1", "localhost", "svc.internal", "google.com", "10.0.0.1", "[::1]", "[2001:db8::7]"}
 			for i := 0; i < n; i++ {
 				src := hosts[t.Choose(len(hosts))] + ":" + strconv.Itoa(80+t.Choose(3))
 				dst := hosts[t.Choose(len(hosts))] + ":" + strconv.Itoa(6060+t.Choose(3))
